@@ -3,6 +3,7 @@ package drivers
 import (
 	"crypto/x509/pkix"
 	"encoding/json"
+	"errors"
 	"fmt"
 	"math/big"
 	"os"
@@ -460,6 +461,73 @@ func c11Teletex(chk *fw.Check) (evals int) {
 	return
 }
 
+// c11Unknown: where the status cannot be determined - the store of the list was lost by a refresh whose swap failed,
+// the repository was closed - a certificate which no list names is denied with an error or accepted, never reported
+// REVOKED: "revoked" is a statement about a list entry.
+func c11Unknown(chk *fw.Check) (evals int) {
+	c := newC11Cast()
+	for _, disk := range []bool{false, true} {
+		for _, how := range []string{"swap-fails-at-rename-1", "swap-fails-at-rename-2", "swap-fails-at-reopen", "after-cleanup"} {
+			if !disk && how != "after-cleanup" {
+				continue
+			}
+			evals++
+			how := how
+			var vs []Verdict
+			res := seqWorld(func() {
+				w := NewCW(CWOpt{Disk: disk, SigMode: config.SignatureValidationModeVerify})
+				defer os.RemoveAll(w.Dir)
+				if err := w.Provision(); err != nil {
+					panic(err)
+				}
+				vsched.Drain()
+				w.Net.Serve(urlA, "good{a}", c.docs["good{a}"])
+				if v := w.Lookup(c.a, world.Chain(c.a, c.p.CA, c.p.Root)); !v.Revoked {
+					panic("c11 unknown: setup " + v.String() + v.Err)
+				}
+				if how == "after-cleanup" {
+					w.Chk.Cleanup()
+				} else {
+					w.Net.Serve(urlA, "good{}", c.docs["good{}"])
+					n := 0
+					vsched.EffectHook = func(kind, arg string) error {
+						want := map[string]string{"swap-fails-at-rename-1": "rename", "swap-fails-at-rename-2": "rename", "swap-fails-at-reopen": "ldb.open"}[how]
+						if kind == want {
+							n++
+							if (how == "swap-fails-at-rename-2" && n == 2) || (how != "swap-fails-at-rename-2" && n == 1) || (how == "swap-fails-at-reopen" && n >= 1) {
+								return errors.New("injected: " + kind + " failed")
+							}
+						}
+						return nil
+					}
+					w.Chk.VerifUpdateCRLs(true)
+					vsched.Drain()
+				}
+				// (presented with and without the distribution point in the certificate: without it nothing makes the
+				// validator look the list up again)
+				for _, pr := range []*world.Ident{world.Leaf(c.p.CA, bi(203), nil, nil), world.Leaf(c.p.CA, bi(201), nil, nil), c.n, c.r} {
+					vs = append(vs, w.Lookup(pr, world.Chain(pr, c.p.CA, c.p.Root)))
+				}
+				vsched.EffectHook = nil
+				if how != "after-cleanup" {
+					w.Chk.Cleanup()
+				}
+			})
+			vsched.EffectHook = nil
+			if res.Verdict != vsched.OK {
+				chk.Violation("C11|panic|status-unknown "+how+"|"+be(disk), firstLines(res.Detail, 4), nil)
+				continue
+			}
+			for i, v := range vs {
+				if v.Revoked {
+					chk.Violation("C11|revoked-not-listed|status-unknown "+how+"|"+be(disk), fmt.Sprintf("%s (%s backend): certificate %d, which no list names, is reported REVOKED", how, be(disk), 203-2*(i%2)), nil)
+				}
+			}
+		}
+	}
+	return
+}
+
 // RunC11 is the entry point of the C11 check.
 func RunC11(tier string, args []string) int {
 	if len(args) > 0 && args[0] == "hworker" {
@@ -519,7 +587,7 @@ func RunC11(tier string, args []string) int {
 		"keys are 64-bit FNV hashes: the guarantee is up to hash collisions, which the generated cases do not hit",
 	}
 	ev, nt, samples := c11Neighbourhood(chk)
-	ev += c11Teletex(chk)
+	ev += c11Teletex(chk) + c11Unknown(chk)
 	total := runHWorkers(chk, "C11", tier, 16)
 	cov := fw.Coverage{
 		"states":                        total.Stats.States + ev,
